@@ -366,7 +366,7 @@ theorem foldl_max_refIndex_zero (l : List Loc) (h : l.any Loc.isIdx = false) :
 
 /-- largest `index + 1` versus largest `index`: they differ by one unless no index is used -/
 theorem foldl_max_succ (l : List Loc) :
-    (l.map (fun l => match l with | .idx n => n + 1 | _ => 0)).foldl max 0
+    (l.map Loc.indexBound).foldl max 0
       = if l.any Loc.isIdx then (l.map Loc.refIndex).foldl max 0 + 1 else 0 := by
   induction l with
   | nil => simp
@@ -375,7 +375,7 @@ theorem foldl_max_succ (l : List Loc) :
     rw [foldl_max_init _ (max 0 _), foldl_max_init _ (max 0 (Loc.refIndex x)), ih]
     cases x with
     | idx n =>
-      simp only [Loc.isIdx, Loc.refIndex, Bool.true_or, if_true]
+      simp only [Loc.isIdx, Loc.refIndex, Loc.indexBound, Bool.true_or, if_true]
       by_cases h : xs.any Loc.isIdx = true
       · simp only [h, if_true]; omega
       · have h' : xs.any Loc.isIdx = false := by simpa using h
@@ -383,7 +383,7 @@ theorem foldl_max_succ (l : List Loc) :
         simp only [h', Bool.false_eq_true, if_false]
         omega
     | coord a b =>
-      simp only [Loc.isIdx, Loc.refIndex, Bool.false_or]
+      simp only [Loc.isIdx, Loc.refIndex, Loc.indexBound, Bool.false_or]
       split <;> omega
 
 theorem roundSqrtGo_sq (k : Nat) : ∀ (m s fuel : Nat), k = s + m → m < fuel → roundSqrtGo (k * k) fuel s = k := by
